@@ -72,7 +72,8 @@ def newEvents (old new : St) : List String :=
 
 def runCase (tol : Bool) (ors : List Char) (toks : List String) (prog : List Stmt) : List String := Id.run do
   let ρ := mkOracle toks
-  let cfg : Cfg := { tolerant := tol, ofs := [' '], ors := ors }
+  -- every turn of the console read loop consumes a scripted (non-accept) reply, so this fuel is never exhausted
+  let cfg : Cfg := { tolerant := tol, ofs := [' '], ors := ors, readFuel := 2 * toks.length + 8 }
   let mut out : Array String := #[s!"C {if tol then 1 else 0}"]
   let mut s := St.init
   let mut aborted := false
@@ -86,6 +87,7 @@ def runCase (tol : Bool) (ors : List Char) (toks : List String) (prog : List Stm
     | .val v => out := out.push s!"R {v}"
     | .unit => pure ()
     | .runerr => aborted := true
+    | .hang => out := out.push "X hang"; aborted := true
     s := r.1
     i := i + 1
   if !aborted then out := out.push s!"S {i} {showChain s.chain}"
